@@ -25,7 +25,7 @@ import (
 	"verif/harness/lp"
 )
 
-const rule = "cases = byte strings: every 1-2 byte string and 3-byte strings (sampled in quick, all in thorough) alone and followed by a valid tail; structure-aware random CBOR with lying lengths / reserved additional info / misplaced breaks / wrong tag contents / deep nesting; mutations of valid logger output; every cut point of valid multi-event streams. Entry points: Cbor2JsonManyObjects, DecodeIfBinaryToBytes/String, ConsoleWriter.Write, journald writer's Write (no journal socket in the sandbox: decoding and field conversion run, the send fails). oracle = call returns, no panic escapes, bytes allocated <= 64KiB + 64*len(input), prefix stability. non-trivial = input reaches a length-prefixed read, a tag handler or nesting depth >= 2 (header scan); distinct = FNV-64 of the input, enumerations by construction"
+const rule = "cases = byte strings: every 1-2 byte string and 3-byte strings (sampled in quick, all in thorough) alone and followed by a valid tail; structure-aware random CBOR with lying lengths / reserved additional info / misplaced breaks / wrong tag contents / deep nesting; mutations of valid logger output; every cut point of valid multi-event streams. Entry points: Cbor2JsonManyObjects, DecodeIfBinaryToBytes/String, ConsoleWriter.Write, journald writer's Write (no journal socket in the sandbox: decoding and field conversion run, the send fails). oracle = call returns, no panic escapes, output <= 1 KiB + 64*len(input) and bytes allocated <= 64KiB + 64*len(input) + 6*len(output), prefix stability. non-trivial = input reaches a length-prefixed read, a tag handler or nesting depth >= 2 (header scan); distinct = FNV-64 of the input, enumerations by construction"
 
 var rec = ev.New("C17", rule)
 
@@ -120,8 +120,15 @@ func checkInput(in []byte, withConsole bool) *failure {
 	if pan != "" {
 		return &failure{"Cbor2JsonManyObjects", hex.EncodeToString(in), pan}
 	}
-	if d > bound+uint64(out.Cap()) {
-		return &failure{"Cbor2JsonManyObjects", hex.EncodeToString(in), fmt.Sprintf("allocated %d bytes for %d input bytes (bound %d)", d, len(in), bound)}
+	// the output itself may be up to ~36x the input (a 9-byte float64 such as 5e-324 or 1.8e308 is
+	// printed with 'f' formatting: 300+ digits), and growing a buffer by doubling allocates a
+	// small multiple of its final size: the allowance is linear in input and output, and the
+	// output must stay in proportion to the input
+	if out.Len() > 1024+64*len(in) {
+		return &failure{"Cbor2JsonManyObjects", hex.EncodeToString(in), fmt.Sprintf("%d output bytes for %d input bytes", out.Len(), len(in))}
+	}
+	if d > bound+6*uint64(out.Cap()) {
+		return &failure{"Cbor2JsonManyObjects", hex.EncodeToString(in), fmt.Sprintf("allocated %d bytes for %d input bytes, %d output bytes (bound %d)", d, len(in), out.Len(), bound+6*uint64(out.Cap()))}
 	}
 	var b2 []byte
 	d = measure(func() {
@@ -130,8 +137,11 @@ func checkInput(in []byte, withConsole bool) *failure {
 	if pan != "" {
 		return &failure{"DecodeIfBinaryToBytes", hex.EncodeToString(in), pan}
 	}
-	if d > bound+2*uint64(cap(b2)) {
-		return &failure{"DecodeIfBinaryToBytes", hex.EncodeToString(in), fmt.Sprintf("allocated %d bytes for %d input bytes (bound %d)", d, len(in), bound)}
+	if len(b2) > 1024+64*len(in) {
+		return &failure{"DecodeIfBinaryToBytes", hex.EncodeToString(in), fmt.Sprintf("%d output bytes for %d input bytes", len(b2), len(in))}
+	}
+	if d > bound+6*uint64(cap(b2)) {
+		return &failure{"DecodeIfBinaryToBytes", hex.EncodeToString(in), fmt.Sprintf("allocated %d bytes for %d input bytes, %d output bytes (bound %d)", d, len(in), len(b2), bound+6*uint64(cap(b2)))}
 	}
 	if p := call(func() { zerolog.VerifDecodeIfBinaryToString(in) }); p != "" {
 		return &failure{"DecodeIfBinaryToString", hex.EncodeToString(in), p}
